@@ -12,6 +12,7 @@ import (
 	"time"
 
 	"github.com/hashicorp/memberlist"
+	"github.com/vx-labs/cluster/membership"
 	"github.com/vx-labs/commitlog/stream"
 	"github.com/vx-labs/mqtt-protocol/packet"
 	"github.com/vx-labs/wasp/v4/wasp"
@@ -172,7 +173,10 @@ type Cluster struct {
 	// gossip log: every payload handed out, in order
 	GossipSent int64
 	// gossip withheld from a node (HoldGossipFor), in arrival order
-	held map[uint64][][]byte
+	held        map[uint64][][]byte
+	unreachKind int64
+	// every gossip payload the pump has handed out, in order
+	gossipLog [][]byte
 }
 
 type RPCRecord struct {
@@ -204,19 +208,19 @@ type Node struct {
 	Manager wasp.Manager
 	Members wasp.NodeMemberManager
 
-	ctx     context.Context
-	cancel  context.CancelFunc
-	wg      sync.WaitGroup
+	ctx    context.Context
+	cancel context.CancelFunc
+	wg     sync.WaitGroup
 	// the log consumer has its own context and is stopped first (see Stop)
 	consumerCancel context.CancelFunc
 	consumerDone   chan struct{}
 	clientsMu      sync.Mutex
 	clients        []*Client
-	grpcSrv *grpc.Server
-	lis     *bufconn.Listener
-	connMu  sync.Mutex
-	conns   map[uint64]*grpc.ClientConn
-	stopped bool
+	grpcSrv        *grpc.Server
+	lis            *bufconn.Listener
+	connMu         sync.Mutex
+	conns          map[uint64]*grpc.ClientConn
+	stopped        bool
 }
 
 func NewCluster(baseDir string) *Cluster {
@@ -247,7 +251,16 @@ func (t nodeTransport) call(id uint64, f func(*grpc.ClientConn) error) error {
 	bad := t.c.unreachable[id] || t.c.dead[id] || peer == nil
 	t.c.mu.Unlock()
 	if bad {
-		return errors.New("peer unreachable (injected)")
+		// the errors the real cluster pool (cluster/membership) returns for a peer it cannot call,
+		// plus a plain transport error; the kind rotates so that every kind is exercised
+		switch atomic.AddInt64(&t.c.unreachKind, 1) % 3 {
+		case 0:
+			return membership.ErrPeerNotFound
+		case 1:
+			return membership.ErrPeerDisabled
+		default:
+			return errors.New("peer unreachable (injected)")
+		}
 	}
 	t.from.connMu.Lock()
 	conn := t.from.conns[id]
@@ -455,6 +468,9 @@ func (c *Cluster) PumpOnce() int {
 	for _, n := range nodes {
 		bs := n.Bcast.GetBroadcasts(0, 1<<30)
 		for _, b := range bs {
+			c.mu.Lock()
+			c.gossipLog = append(c.gossipLog, b)
+			c.mu.Unlock()
 			for _, m := range nodes {
 				if m != n {
 					c.mu.Lock()
@@ -473,6 +489,34 @@ func (c *Cluster) PumpOnce() int {
 	}
 	atomic.AddInt64(&c.GossipSent, int64(total))
 	return total
+}
+
+// RedeliverAllGossip delivers every payload the pump has ever handed out once more, in the
+// original order, to every live node (late retransmissions: delivery "any number of times").
+func (c *Cluster) RedeliverAllGossip() int {
+	c.mu.Lock()
+	log := append([][]byte{}, c.gossipLog...)
+	c.mu.Unlock()
+	for _, b := range log {
+		for _, m := range c.nodesSnapshot() {
+			m.State.Distributor().NotifyMsg(b)
+		}
+	}
+	return len(log)
+}
+
+// FailNodeStaggered is FailNode with the survivors learning of the failure one after the other:
+// after each notification the gossip it causes is delivered and gap is waited.
+func (c *Cluster) FailNodeStaggered(n *Node, gap time.Duration) {
+	c.mu.Lock()
+	c.dead[n.ID] = true
+	c.mu.Unlock()
+	n.stop(false, true)
+	for _, m := range c.nodesSnapshot() {
+		m.Members.NotifyGossipLeave(n.ID)
+		time.Sleep(gap)
+		c.Quiesce()
+	}
 }
 
 // HoldGossipFor makes the pump keep (not deliver) everything destined to node id.
